@@ -49,6 +49,7 @@ type Ctx struct {
 }
 
 func NewCtx(p *Prog, prop, tier string) *Ctx {
+	activeProg = p
 	return &Ctx{P: p, Prop: prop, Tier: tier, ruleDocs: map[string]string{}, floors: map[string][2]int{}}
 }
 
